@@ -11,7 +11,18 @@ is written for) and for ARBITRARY argument lists `a : Args` (any positional list
 `Env.quiet keyOf hashOf raises` = nothing in flight, nothing cached; arbitrary key function, arbitrary hashes of the
 argument values, returning or raising bodies.  The conventions that make a SECOND call of the same attribute
 (`sibling`, `siblingCall`, `prior`) have their own theorems (`C09_second_call*`, `C09_other_keys_irrelevant`,
-`C09_dict_hash_irrelevant`); `available` is false for them, so the one-call theorems do not speak about them.
+`C09_own_entries`, `C09_dict_hash_irrelevant`); `available` is false for them, so the one-call theorems do not speak
+about them.
+
+What the statements do NOT say (it rests on the differential run against the real code only):
+* the 13 conventions the harness drives are 10 distinct computations in the model: `sync`/`nestedSync`,
+  `asynqValue`/`yieldAsynq`, `asyncCall`/`asyncCallSync` are the same clause of `runCv` BY DEFINITION (a `yield` from a
+  task, `.value()` and a nested synchronous call deliver the same outcome: that is C01/C02, assumed here).  For two
+  conventions of one pair `C09_agree` is `x = x` (`C09_convention_pairs_by_definition`);
+* the truth value of a receiver and the history of attribute look-ups are not inputs of any function of the model
+  (`Case.falsy`, `Case.pre` are read by nothing: `C09_truthiness_history_by_construction`).  What the model does say is
+  that it treats receivers parametrically: `C09_any_receiver` holds for ARBITRARY instance and class tokens;
+* the class of a raised exception, a user task class, a user key function are not inputs either.
 
 History: the check found that `@async_proxy(pure=True)` returned the function unmarked, so the helpers did not
 recognise it; that was repaired in the library (the decorator now sets `is_pure_async_fn` on the function, as
@@ -20,9 +31,9 @@ recognise it; that was repaired in the library (the decorator now sets `is_pure_
 namespace AsynqModel.Decorators
 
 /-- **every available asynchronous convention runs the same body with the same arguments**: `.asynq(...).value()`,
-    yielding `.asynq(...)` from a task, `async_call` (both forms), `get_async_fn` (with and without wrap_if_none),
-    `get_async_or_sync_fn` and `.asynq(...)` next to a same-named twin in flight all produce literally the same
-    result term -/
+    `async_call`, `get_async_fn` (with and without wrap_if_none), `get_async_or_sync_fn` and `.asynq(...)` next to a
+    same-named twin in flight all produce literally the same result term.  (Seven distinct computations; inside the
+    pairs `asynqValue`/`yieldAsynq` and `asyncCall`/`asyncCallSync` the equation holds by definition, see the header.) -/
 theorem C09_agree (c : Cell) (a : Args) (keyOf : Args → Args) (cv₁ cv₂ : Cv)
     (h : supported c.kind c.ft c.acc = true)
     (h₁ : available c.kind cv₁ = true) (h₂ : available c.kind cv₂ = true) :
@@ -33,16 +44,17 @@ theorem C09_agree (c : Cell) (a : Args) (keyOf : Args → Args) (cv₁ cv₂ : C
   cases k <;> cases cv₁ <;> cases cv₂ <;> first | rfl | (simp [available, Kind.hasAsynq] at h₁ h₂)
 
 /-- **exactly one, correct receiver; the caller's arguments unchanged**: each available asynchronous convention
-    runs the async body (identity 1; through the user's wrapper_fn iff the decorator was built with
-    make_async_decorator) with positional arguments `receiver ++ a.pos` and keywords `a.kw`, where the
+    ends in the result of running the async body (identity 1; through the user's wrapper_fn iff the decorator was built
+    with make_async_decorator) with positional arguments `receiver ++ a.pos` and keywords `a.kw`, where the
     receiver is what Python itself binds for an undecorated function of that type through that access path (the
     instance, the class the attribute was fetched through, or nothing) or the instance the caller passed explicitly
-    to an unbound method - never both, never twice -/
+    to an unbound method - never both, never twice.  (`Cell.refVal`: for an UNDECORATED generator function the
+    conventions end in the generator object built with exactly these arguments; nothing runs it - `C09_raw_generator`.) -/
 theorem C09_receiver (c : Cell) (a : Args) (keyOf : Args → Args) (cv : Cv)
     (h : supported c.kind c.ft c.acc = true) (hv : available c.kind cv = true) :
     (modelCv (Env.idle keyOf) c cv a).res =
-        .val ⟨1, { pos := refPrefix c.ft c.acc 0 ++ (explicitSelf c.ft c.acc 0 ++ a.pos), kw := a.kw },
-              c.kind.userWrapped⟩ ∧
+        c.refVal ⟨1, { pos := refPrefix c.ft c.acc 0 ++ (explicitSelf c.ft c.acc 0 ++ a.pos), kw := a.kw },
+                  c.kind.userWrapped⟩ ∧
       (refPrefix c.ft c.acc 0 ++ explicitSelf c.ft c.acc 0).length = (if hasRecvParam c.ft c.acc then 1 else 0) := by
   obtain ⟨k, ft, acc, bk⟩ := c
   rw [modelCv_eq_ref k ft acc bk cv a keyOf h (available_not_sib _ _ hv)]
@@ -56,7 +68,7 @@ theorem C09_receiver (c : Cell) (a : Args) (keyOf : Args → Args) (cv : Cv)
 theorem C09_sync (c : Cell) (a : Args) (keyOf : Args → Args) (cv : Cv)
     (h : supported c.kind c.ft c.acc = true) (hv : cv = .sync ∨ cv = .nestedSync) :
     modelCv (Env.idle keyOf) c cv a =
-      ⟨[], .val ⟨if c.kind.hasSyncFn then 2 else 1, refArgs c.ft c.acc 0 a, c.kind.userWrapped⟩, c.kind.pureLike⟩ := by
+      ⟨[], c.refVal ⟨if c.kind.hasSyncFn then 2 else 1, refArgs c.ft c.acc 0 a, c.kind.userWrapped⟩, c.kind.pureLike⟩ := by
   obtain ⟨k, ft, acc, bk⟩ := c
   rw [modelCv_eq_ref k ft acc bk cv a keyOf h (by rcases hv with rfl | rfl <;> rfl)]
   rcases hv with rfl | rfl <;> cases k <;> rfl
@@ -72,24 +84,78 @@ theorem C09_direct (c : Cell) (a : Args) (keyOf : Args → Args) (cv : Cv)
   rw [modelCv_eq_ref k ft acc bk cv a keyOf h (by rcases hv with rfl | rfl | rfl <;> rfl)]
   rcases hv with rfl | rfl | rfl <;> cases k <;> rfl
 
-/-- **same outcome**: whatever the body's parameter list `s` (ANY signature) and whether it returns or raises, all
-    available asynchronous conventions observe the same outcome (returned object, raised exception or TypeError
-    from argument binding), and - the twin convention aside, which also logs the twin - the same body log -/
-theorem C09_outcome_agree (c : Cell) (a : Args) (keyOf : Args → Args) (s : Sig) (raises : Bool) (cv₁ cv₂ : Cv)
-    (h : supported c.kind c.ft c.acc = true)
-    (h₁ : available c.kind cv₁ = true) (h₂ : available c.kind cv₂ = true) :
-    (obsOf s raises cv₁ (modelCv (Env.idle keyOf) c cv₁ a)).out =
-        (obsOf s raises cv₂ (modelCv (Env.idle keyOf) c cv₂ a)).out ∧
-      (cv₁ ≠ .twin → cv₂ ≠ .twin →
-        (obsOf s raises cv₁ (modelCv (Env.idle keyOf) c cv₁ a)).log =
-          (obsOf s raises cv₂ (modelCv (Env.idle keyOf) c cv₂ a)).log) := by
+/-- **the outcome an observer sees** (corollary of `C09_receiver`, stated at the level of observations): whatever the
+    body's parameter list `s` (ANY signature) and whether it returns or raises, every available asynchronous
+    convention observes: TypeError, and no body entered, exactly when CPython cannot bind `receiver ++ arguments` to
+    the parameters; otherwise the object the async body returned (wrapped iff make_async_decorator) or the exception it
+    raised, and - the twin convention aside, which also logs the twin - exactly ONE entry of body 1 that saw the bound
+    parameters.  (Cells other than undecorated generator functions; those are `C09_raw_generator`.) -/
+theorem C09_outcome (c : Cell) (a : Args) (keyOf : Args → Args) (s : Sig) (raises : Bool) (cv : Cv)
+    (h : supported c.kind c.ft c.acc = true) (hv : available c.kind cv = true) (hr : c.rawGen = false) :
+    (obsOf s raises cv (modelCv (Env.idle keyOf) c cv a)).out =
+        (match bind s (refArgs c.ft c.acc 0 a) with
+         | some _ => bodyOutcome raises 1 c.kind.userWrapped
+         | none => .raised .typeError) ∧
+      (cv ≠ .twin →
+        (obsOf s raises cv (modelCv (Env.idle keyOf) c cv a)).log =
+          (match bind s (refArgs c.ft c.acc 0 a) with
+           | some seen => [⟨1, seen, true⟩]
+           | none => [])) := by
   obtain ⟨k, ft, acc, bk⟩ := c
-  rw [modelCv_eq_ref k ft acc bk cv₁ a keyOf h (available_not_sib _ _ h₁),
-      modelCv_eq_ref k ft acc bk cv₂ a keyOf h (available_not_sib _ _ h₂)]
-  cases k <;> cases cv₁ <;> cases cv₂ <;>
+  rw [modelCv_eq_ref k ft acc bk cv a keyOf h (available_not_sib _ _ hv)]
+  have hr' : Cell.rawGen ⟨k, ft, acc, bk⟩ = false := hr
+  cases k <;> cases cv <;>
     first
-    | (simp [available, Kind.hasAsynq] at h₁ h₂; done)
-    | (constructor <;> simp [obsOf, refCv, refCvRun, Cv.isSib, Kind.hasAsynq])
+    | (simp [available, Kind.hasAsynq] at hv; done)
+    | (constructor <;>
+        simp [obsOf, refCv, refCvRun, Cv.isSib, Kind.hasAsynq, Cell.refVal, hr', execRes, Kind.userWrapped] <;>
+        cases bind s (refArgs ft acc 0 a) <;> simp)
+
+/-- **an UNDECORATED generator function is ordinary Python** (the one place where the body kind shows): through every
+    convention that does not fail with a missing attribute the caller ends up with the generator OBJECT built from
+    `receiver ++ arguments`; nothing runs it: no body is entered, the outcome is "a generator object" - or TypeError
+    when the arguments do not bind.  `sync`, `async_call`, `get_async_or_sync_fn`, `get_async_fn(wrap_if_none=True)`
+    agree on that; `.asynq`, `get_async_fn` are absent.  (Outside the statement of C09, which speaks about decorated
+    callables; modelled because the helpers accept such functions.) -/
+theorem C09_raw_generator (ft : FnType) (acc : Access) (bk : BodyKind) (a : Args) (keyOf : Args → Args) (s : Sig)
+    (raises : Bool) (cv : Cv) (h : supported .raw ft acc = true) (hb : bk ≠ .plain)
+    (hv : available .raw cv = true ∨ cv = .sync ∨ cv = .nestedSync) :
+    (modelCv (Env.idle keyOf) ⟨.raw, ft, acc, bk⟩ cv a).res = .gen (.val ⟨1, refArgs ft acc 0 a, false⟩) ∧
+    (obsOf s raises cv (modelCv (Env.idle keyOf) ⟨.raw, ft, acc, bk⟩ cv a)).log = [] ∧
+    (obsOf s raises cv (modelCv (Env.idle keyOf) ⟨.raw, ft, acc, bk⟩ cv a)).out =
+      (if (bind s (refArgs ft acc 0 a)).isNone then .raised .typeError else .gotGenerator) := by
+  have hsib : cv.isSib = false := by
+    rcases hv with hv | rfl | rfl
+    · exact available_not_sib _ _ hv
+    · rfl
+    · rfl
+  rw [modelCv_eq_ref .raw ft acc bk cv a keyOf h hsib]
+  cases bk <;> first | exact absurd rfl hb | skip
+  all_goals
+    cases cv <;>
+      first
+      | (simp [available, Kind.hasAsynq] at hv; done)
+      | (refine ⟨rfl, ?_, ?_⟩ <;>
+          simp [obsOf, refCv, refCvRun, Cv.isSib, Cell.refVal, Cell.rawGen, execRes, Res.bindFails, Kind.userWrapped,
+                Kind.hasSyncFn] <;>
+          cases bind s (refArgs ft acc 0 a) <;> simp)
+
+/-- **the body kind of a DECORATED callable never shows** - plain function, generator function, generator blocking on
+    a batch: `_call_pure` hands a generator object to the task (needs_wrapper) and wraps a plain function in
+    `_fn_wrapper`; the tools wrappers and a wrapper_fn are generator functions around `.asynq`.  All these paths end in
+    the same result, for every convention (the two-call ones included), ARBITRARY arguments, key function separating
+    the two calls, hashes, returning or raising bodies. -/
+theorem C09_body_kind_irrelevant (k : Kind) (ft : FnType) (acc : Access) (bk bk' : BodyKind) (cv : Cv) (a : Args)
+    (keyOf : Args → Args) (hf : Nat → Nat) (rs : Bool) (rel : Rel)
+    (h : supported k ft acc = true) (hk : k ≠ .raw)
+    (hkey : identicalSib ft acc rel a = false → keyOf (refArgsSib ft acc rel a) ≠ keyOf (refArgs ft acc 0 a)) :
+    modelCv (Env.quiet keyOf hf rs) ⟨k, ft, acc, bk⟩ cv a rel = modelCv (Env.quiet keyOf hf rs) ⟨k, ft, acc, bk'⟩ cv a rel :=
+  bk_irrelevant k ft acc bk bk' cv a keyOf hf rs rel h hk hkey
+
+/-- `k ≠ .raw` is needed in `C09_body_kind_irrelevant`: an undecorated generator function is not its plain twin -/
+theorem C09_body_kind_matters_raw :
+    modelCv (Env.quiet id id false) ⟨.raw, .plain, .direct, .gen⟩ .sync ⟨[30], []⟩ ≠
+      modelCv (Env.quiet id id false) ⟨.raw, .plain, .direct, .plain⟩ .sync ⟨[30], []⟩ := by decide
 
 /-- **what `__get__` returns**: a decorated staticmethod (and a module-level function) is the decorator itself; any
     other decorated attribute is a binder holding exactly the receiver Python would bind (the instance, the class
@@ -104,10 +170,31 @@ theorem C09_get_binder (c : Cell) (h : supported c.kind c.ft c.acc = true) :
   obtain ⟨k, ft, acc, bk⟩ := c
   rw [modelGot_eq_ref k ft acc bk h]; rfl
 
+/-- **receivers are treated parametrically**: for ARBITRARY tokens - any instance `i` (`owner = some i`) or none (access
+    through the class), any class `cls` - `.asynq(...)` of the attribute fetched with `__get__(owner, cls)` is a future
+    of the async body run with exactly what Python prepends for an undecorated function of that type (`pyPrefix`:
+    the instance, the class for a classmethod, nothing for a staticmethod) followed by the caller's arguments, and
+    the plain call runs the async body - or sync_fn - with the same.  The model performs no test on a receiver
+    other than `is None` (`Option`): there is no truth value, hash or equality of a receiver it could consult.
+    (`hself`: an `acached_per_instance` method needs its `self` from somewhere.) -/
+theorem C09_any_receiver (k : Kind) (ft : FnType) (bk : BodyKind) (owner : Option Nat) (cls : Nat) (a : Args)
+    (keyOf : Args → Args) (hs : supported k ft .inst = true)
+    (hself : k = .acpi → pyPrefix ft owner cls ++ a.pos ≠ []) :
+    (k.hasAsynq = true →
+      app (Env.idle keyOf) .asynq (descrGet (build k ft bk false) owner cls) a =
+        .fut ⟨1, { a with pos := pyPrefix ft owner cls ++ a.pos }, k.userWrapped⟩) ∧
+    app (Env.idle keyOf) .call (descrGet (build k ft bk false) owner cls) a =
+      (if k.pureLike then .fut ⟨1, { a with pos := pyPrefix ft owner cls ++ a.pos }, false⟩
+       else Cell.refVal ⟨k, ft, .inst, bk⟩
+              ⟨if k.hasSyncFn then 2 else 1, { a with pos := pyPrefix ft owner cls ++ a.pos }, k.userWrapped⟩) :=
+  ⟨fun hk => any_receiver_asynq k ft bk owner cls a keyOf hs hk hself,
+   any_receiver_call k ft bk owner cls a keyOf hs hself⟩
+
 /-- **the classification helpers answer according to how the callable can actually be called**:
     `has_async_fn` is true iff `.asynq(...)` does not fail with a missing attribute; `is_pure_async_fn` is true iff
     the plain call hands back a future; `is_async_fn` is their disjunction and is false exactly for an undecorated
-    function (on which `.asynq` is missing and the plain call returns a value) -/
+    function (on which `.asynq` is missing and the plain call is ordinary Python: the value - the generator object of
+    a generator function) -/
 theorem C09_classify (c : Cell) (a : Args) (keyOf : Args → Args)
     (h : supported c.kind c.ft c.acc = true) :
     let b := c.callable
@@ -116,14 +203,15 @@ theorem C09_classify (c : Cell) (a : Args) (keyOf : Args → Args)
     (isPureAsyncFn b = true ↔ ∃ r, app (Env.idle keyOf) .call b a' = .fut r) ∧
     (isAsyncFn b = (hasAsyncFn b || isPureAsyncFn b)) ∧
     (isAsyncFn b = false ↔ c.kind = .raw) ∧
-    (isAsyncFn b = false → ∃ r, app (Env.idle keyOf) .call b a' = .val r) := by
+    (isAsyncFn b = false → ∃ r, app (Env.idle keyOf) .call b a' = c.refVal r) := by
   obtain ⟨k, ft, acc, bk⟩ := c
   have hc := modelCls_eq_ref k ft acc bk h
   simp only [modelCls, refCls, Cls.mk.injEq] at hc
   obtain ⟨h1, h2, h3, -, -⟩ := hc
   dsimp only
   rw [call_eq k ft acc bk a keyOf h, asynq_eq k ft acc bk a keyOf h, h1, h2, h3]
-  cases k <;> simp [Kind.hasAsynq, Kind.hasSyncFn, Kind.userWrapped, Kind.pureLike]
+  cases k <;> cases bk <;>
+    simp [Kind.hasAsynq, Kind.hasSyncFn, Kind.userWrapped, Kind.pureLike, Cell.refVal, Cell.rawGen, Res.fut]
 
 /-- **the conversion helpers hand back something that, called with the same arguments, is a future of the async
     body with the right receiver**: `get_async_fn` gives None exactly for an undecorated function;
@@ -136,8 +224,8 @@ theorem C09_convert (c : Cell) (a : Args) (keyOf : Args → Args)
     let own : Reach := ⟨1, refArgs c.ft c.acc 0 a, c.kind.userWrapped⟩
     (getAsyncFn b = .absent ↔ c.kind = .raw) ∧
     appConv (Env.idle keyOf) (getAsyncFn b) b a' = (if c.kind = .raw then .err .noAsynq else .fut own) ∧
-    appConv (Env.idle keyOf) (getAsyncOrSyncFn b) b a' = (if c.kind = .raw then .val own else .fut own) ∧
-    asyncCall (Env.idle keyOf) b a' = .fut own := by
+    appConv (Env.idle keyOf) (getAsyncOrSyncFn b) b a' = (if c.kind = .raw then c.refVal own else .fut own) ∧
+    asyncCall (Env.idle keyOf) b a' = .futOf (c.refVal own) := by
   obtain ⟨k, ft, acc, bk⟩ := c
   have hc := modelCls_eq_ref k ft acc bk h
   simp only [modelCls, refCls, Cls.mk.injEq] at hc
@@ -148,24 +236,55 @@ theorem C09_convert (c : Cell) (a : Args) (keyOf : Args → Args)
   simp only [asyncCall, appConv, h2, h3]
   have hcall := call_eq k ft acc bk a keyOf h
   have hasynq := asynq_eq k ft acc bk a keyOf h
-  cases k <;> simp_all [Kind.hasAsynq, Kind.hasSyncFn, Kind.userWrapped, Kind.pureLike, Res.task]
+  cases k <;> cases bk <;>
+    simp_all [Kind.hasAsynq, Kind.hasSyncFn, Kind.userWrapped, Kind.pureLike, Res.task, Cell.refVal, Cell.rawGen, Res.fut]
 
-/-- **deduplicate never hands out another function's task**: whatever tasks of OTHER deduplicated functions are in
-    flight (arbitrary table, arbitrary key function - in particular a same-named twin called with equal arguments),
-    `.asynq(...)` of a deduplicated callable is a future of its own body with its own receiver and arguments -/
+/-- **deduplicate hands out nobody else's task**: ARBITRARY in-flight table - tasks of OTHER deduplicated functions
+    under any keys (a same-named twin called with equal arguments), and tasks of THIS function that earlier calls put
+    there (`Table.ownConsistent`: each sits under the key of the arguments it runs with) - and a key function that
+    does not put an own task with other arguments under this call's key (`Table.separates`: any injective key
+    function, e.g. the library's default, the identity on the bound arguments - `C09_separates`; vacuous when no
+    own task is in flight, which was the former hypothesis of this theorem): `.asynq(...)` of a deduplicated callable
+    is a future of its own body with its own receiver and arguments.
+    Both hypotheses are needed: `C09_key_injective_needed` (a key function that collapses arguments, e.g. their
+    hash, hands out another call's task), `C09_consistent_needed`. -/
 theorem C09_dedup_own_body (ft : FnType) (acc : Access) (bk : BodyKind) (a : Args) (env : Env)
-    (h : supported .dedup ft acc = true) (hforeign : ∀ e ∈ env.tasks, e.1.1 ≠ 1) :
+    (h : supported .dedup ft acc = true)
+    (hsep : Table.separates env.keyOf (refArgs ft acc 0 a) env.tasks)
+    (ht : Table.ownConsistent env.keyOf env.tasks) :
     app env .asynq (Cell.callable ⟨.dedup, ft, acc, bk⟩) (callerArgs ft acc 0 a) = .fut ⟨1, refArgs ft acc 0 a, false⟩ := by
-  rw [dedup_asynq_unfold ft acc bk a env h, lookup_foreign env _ hforeign]
+  rw [dedup_asynq_unfold ft acc bk a env h]
+  unfold Env.lookup
+  cases hl : dictFind env.hashOf env.tasks (1, env.keyOf (refArgs ft acc 0 a)) with
+  | none => rfl
+  | some r => rw [own_entry env.keyOf env.hashOf env.tasks _ r hsep ht hl]
 
-/-- **C09 as a whole**: for every case (cell, returning or raising body, parameter signature, ARBITRARY argument
-    lists) the observations of the model are accepted by `spec` - the same Boolean
-    function the check evaluates on the observations of the real implementation -/
-theorem C09_spec_holds (c : Case) : spec c (modelReport c) = true := by
+/-- when the hypotheses of `C09_dedup_own_body` / `C09_own_entries` hold: for every table under an injective key
+    function, and for every table without entries of the function under test whatever the key function -/
+theorem C09_separates (keyOf : Args → Args) (x : Args) (t : Table) :
+    ((∀ y, keyOf y = keyOf x → y = x) → Table.separates keyOf x t) ∧
+    ((∀ e ∈ t, e.1.1 ≠ 1) → Table.separates keyOf x t ∧ Table.ownConsistent keyOf t) :=
+  ⟨separates_of_injective keyOf x t, separates_of_foreign keyOf x t⟩
+
+/-- **C09 as a whole**: for every case of a supported cell (returning or raising body, parameter signature,
+    ARBITRARY argument lists, relation of the second call, kind of value objects) the observations of the model are
+    accepted by `spec` - the same Boolean function the check evaluates on the observations of the real implementation -/
+theorem C09_spec_holds (c : Case) (h : supported c.cell.kind c.cell.ft c.cell.acc = true) :
+    spec c (modelReport c) = true := by
   unfold spec
-  cases hs : supported c.cell.kind c.cell.ft c.cell.acc
-  · rfl
-  · rw [modelReport_eq_ref c hs, reportClause_self]; rfl
+  rw [h, modelReport_eq_ref c h, reportClause_self]; rfl
+
+/-- **the observer is exact**: `spec` accepts ONE report per case - the one of the reference table - and nothing at all
+    for a cell outside the supported bindings.  Any other observation (a body entered with other arguments, a missing
+    or additional entry, another outcome, a flag, a helper's answer, the bound receiver, a missing / additional /
+    reordered convention) is rejected. -/
+theorem C09_spec_exact (c : Case) (r : Report) :
+    spec c r = true ↔ (supported c.cell.kind c.cell.ft c.cell.acc = true ∧ r = refReport c) := by
+  unfold spec
+  rw [Bool.and_eq_true, Option.isNone_iff_eq_none, reportClause_none_iff]
+  constructor
+  · rintro ⟨h1, h2⟩; exact ⟨h1, h2.symm⟩
+  · rintro ⟨h1, h2⟩; exact ⟨h1, h2.symm⟩
 
 /-- **`@async_proxy(pure=True)` is a pure async function for every helper** (the repaired defect): through every
     access path and for ARBITRARY arguments the plain call hands back a future of the body with the right receiver,
@@ -186,28 +305,6 @@ theorem C09_proxy_pure (ft : FnType) (acc : Access) (bk : BodyKind) (a : Args) (
     | (simp [supported] at h; done)
     | exact ⟨rfl, rfl, rfl, rfl, rfl, rfl, rfl, rfl⟩
 
-/-- **truthiness of the receiver and the history of accesses are irrelevant**: whatever the truth value of the
-    generated instances / classes (`falsy`) and whatever look-ups of the same attribute through other access paths
-    came before (`pre`, an ARBITRARY list), the property demands the same observations (`spec` does not read them)
-    and the model produces the same observations: the binders test `instance is None`, never its truth value, and
-    `__get__` keeps no state between accesses.  Together with `C09_spec_holds` (which quantifies over every `Case`,
-    hence over every `falsy` and `pre`): a falsy receiver is bound exactly like a truthy one, and a look-up through
-    the subclass after one through the base class (or the other way round) binds its own class. -/
-theorem C09_truthiness_history_irrelevant (c : Case) (falsy : Bool) (pre : List Access) (r : Report) :
-    modelReport { c with falsy := falsy, pre := pre } = modelReport c ∧
-    refReport { c with falsy := falsy, pre := pre } = refReport c ∧
-    spec { c with falsy := falsy, pre := pre } r = spec c r :=
-  ⟨rfl, rfl, rfl⟩
-
-/-- per access in a sequence: the receiver a look-up binds is a function of THAT access path alone - base class
-    then subclass, subclass then base class, instances in between: each gets exactly Python's receiver -/
-theorem C09_receiver_per_access (k : Kind) (ft : FnType) (bk : BodyKind) (accs : List Access)
-    (h : ∀ acc ∈ accs, supported k ft acc = true) :
-    accs.map (fun acc => modelRecv ⟨k, ft, acc, bk⟩) = accs.map (fun acc => (refPrefix ft acc 0).headD 0) := by
-  apply List.map_congr_left
-  intro acc hacc
-  exact modelRecv_eq_ref k ft acc bk (h acc hacc)
-
 /-! ## a second call of the same attribute: other receiver, other argument objects, colliding hashes -/
 
 /-- **a dict lookup never confuses two keys because their hashes collide**: what `DeduplicateDecorator.tasks[key]`
@@ -221,7 +318,8 @@ theorem C09_dict_hash_irrelevant (h h' : Nat → Nat) (l : Table) (k : Nat × Ar
     the SAME attribute in flight in the same yield (`sibling`, through `async_call`: `siblingCall`) or completed /
     failed just before (`prior`) - made through another receiver (a second instance of the class, the other class of
     the hierarchy for a classmethod: `rel = .recv`) or with every argument replaced by another object
-    (`rel = .args`) - each of the two calls runs the async body with ITS OWN receiver and ITS OWN arguments.
+    (`rel = .args`) - each of the two calls runs the async body with ITS OWN receiver and ITS OWN arguments
+    (`Cell.refVal`: two generator objects for an undecorated generator function under `async_call`).
     For every cell, ARBITRARY argument lists, ARBITRARY hashes of the values (`hf`: all of them may collide),
     returning or raising bodies, and every key function that separates the two calls. -/
 theorem C09_second_call (c : Cell) (a : Args) (rel : Rel) (cv : Cv) (keyOf : Args → Args) (hf : Nat → Nat) (rs : Bool)
@@ -230,8 +328,8 @@ theorem C09_second_call (c : Cell) (a : Args) (rel : Rel) (cv : Cv) (keyOf : Arg
     (hkey : keyOf (refArgsSib c.ft c.acc rel a) ≠ keyOf (refArgs c.ft c.acc 0 a)) :
     modelCv (Env.quiet keyOf hf rs) c cv a rel =
       (if availableSib c.kind cv then
-         ⟨[.val ⟨1, refArgsSib c.ft c.acc rel a, c.kind.userWrapped⟩],
-          .val ⟨1, refArgs c.ft c.acc 0 a, c.kind.userWrapped⟩, false⟩
+         ⟨[c.refVal ⟨1, refArgsSib c.ft c.acc rel a, c.kind.userWrapped⟩],
+          c.refVal ⟨1, refArgs c.ft c.acc 0 a, c.kind.userWrapped⟩, false⟩
        else ⟨[.err .noAsynq], .err .noAsynq, false⟩) := by
   obtain ⟨k, ft, acc, bk⟩ := c
   unfold modelCv
@@ -246,8 +344,8 @@ theorem C09_second_call_default_key (c : Cell) (a : Args) (rel : Rel) (cv : Cv) 
     (hne : identicalSib c.ft c.acc rel a = false) :
     modelCv (Env.quiet id hf rs) c cv a rel =
       (if availableSib c.kind cv then
-         ⟨[.val ⟨1, refArgsSib c.ft c.acc rel a, c.kind.userWrapped⟩],
-          .val ⟨1, refArgs c.ft c.acc 0 a, c.kind.userWrapped⟩, false⟩
+         ⟨[c.refVal ⟨1, refArgsSib c.ft c.acc rel a, c.kind.userWrapped⟩],
+          c.refVal ⟨1, refArgs c.ft c.acc 0 a, c.kind.userWrapped⟩, false⟩
        else ⟨[.err .noAsynq], .err .noAsynq, false⟩) :=
   C09_second_call c a rel cv id hf rs h hcv hne (refArgsSib_ne c.ft c.acc rel a hne)
 
@@ -261,9 +359,9 @@ theorem C09_second_call_receivers (ft : FnType) (acc : Access) (a : Args) (h : h
 
 /-- **whatever else is in flight or cached** - ARBITRARY in-flight table, ARBITRARY cache, ARBITRARY key function
     and hashes: as long as no entry sits under the key of this very call, `.asynq(...)` and `async_call` of every
-    callable that has `.asynq` are a future of its own body with its own receiver and arguments (generalises
-    `C09_dedup_own_body` to entries of the SAME function under other keys and to the caches of alru_cache /
-    acached_per_instance) -/
+    callable that has `.asynq` are a future of its own body with its own receiver and arguments.  No hypothesis on
+    the key function and none on how the entries got there; `C09_own_entries` is the complement (an entry MAY sit under
+    this call's key, the tables being consistent and the key function separating). -/
 theorem C09_other_keys_irrelevant (c : Cell) (a : Args) (env : Env)
     (h : supported c.kind c.ft c.acc = true) (hk : c.kind.hasAsynq = true)
     (ht : ∀ e ∈ env.tasks, e.1 ≠ (1, env.keyOf (refArgs c.ft c.acc 0 a)))
@@ -280,6 +378,84 @@ theorem C09_other_keys_irrelevant (c : Cell) (a : Args) (env : Env)
   have hp : k.pureLike = false := by cases k <;> first | rfl | (simp [Kind.hasAsynq] at hk)
   simp only [asyncCall, h2, h3, hp, hk]
   exact h1
+
+/-- **own entries too**: like `C09_other_keys_irrelevant`, but the tables may hold entries of THIS function under
+    ANY key - this call's own included - as long as earlier calls of the function put them there
+    (`Table.ownConsistent`) and none that runs with other arguments shares this call's key (`Table.separates`,
+    see `C09_separates`): for deduplicate the in-flight task found IS the task of this body with these arguments, for
+    alru_cache / acached_per_instance the cached value IS the value of this body with these arguments. -/
+theorem C09_own_entries (c : Cell) (a : Args) (env : Env)
+    (h : supported c.kind c.ft c.acc = true) (hk : c.kind.hasAsynq = true)
+    (hst : Table.separates env.keyOf (refArgs c.ft c.acc 0 a) env.tasks)
+    (hsc : Table.separates env.keyOf (refArgs c.ft c.acc 0 a) env.cache)
+    (ht : Table.ownConsistent env.keyOf env.tasks) (hc : Table.ownConsistent env.keyOf env.cache) :
+    app env .asynq c.callable (callerArgs c.ft c.acc 0 a) = .fut ⟨1, refArgs c.ft c.acc 0 a, c.kind.userWrapped⟩ := by
+  obtain ⟨k, ft, acc, bk⟩ := c
+  exact asynq_own_entries k ft acc bk a env h hk hst hsc ht hc
+
+/-! ## the hypotheses are needed (machine-checked witnesses) -/
+
+/-- `supported` is needed: `alru_cache` over a staticmethod fetched through an instance is outside the bindings the
+    wrapper is written for, and the model does not follow the reference table there -/
+theorem C09_supported_needed :
+    supported .alru .static .inst = false ∧
+    (modelCv (Env.idle id) ⟨.alru, .static, .inst, .plain⟩ .asynqValue ⟨[30], []⟩).res ≠
+      (refCv ⟨.alru, .static, .inst, .plain⟩ .asynqValue ⟨[30], []⟩).res := by decide
+
+/-- `available` is needed: a pure function has no `.asynq`, an undecorated one nothing for `get_async_fn` -/
+theorem C09_available_needed :
+    available .pure .asynqValue = false ∧
+    (modelCv (Env.idle id) ⟨.pure, .plain, .inst, .plain⟩ .asynqValue ⟨[30], []⟩).res = .err .noAsynq ∧
+    available .raw .getAsyncFn = false ∧
+    (modelCv (Env.idle id) ⟨.raw, .plain, .inst, .plain⟩ .getAsyncFn ⟨[30], []⟩).res = .err .noAsynq := by decide
+
+/-- `hkey` of `C09_second_call` is needed: under a key function that collapses all arguments (what keying the
+    in-flight table by a colliding hash amounts to) the observed call of a deduplicated method is handed the task of
+    the second call - the body runs with the OTHER call's arguments -/
+theorem C09_second_call_key_needed :
+    (modelCv (Env.quiet (fun _ => ⟨[], []⟩) id false) ⟨.dedup, .plain, .inst, .plain⟩ .sibling ⟨[30], []⟩ .args).res =
+      .val ⟨1, ⟨[1, 130], []⟩, false⟩ ∧
+    (refCv ⟨.dedup, .plain, .inst, .plain⟩ .sibling ⟨[30], []⟩ .args).res = .val ⟨1, ⟨[1, 30], []⟩, false⟩ := by decide
+
+/-- `Table.separates` of `C09_dedup_own_body` / `C09_own_entries` is needed: a consistent own entry for OTHER arguments
+    is handed out when the key function does not separate them (what seeded change C09-7, key = hash of the arguments,
+    does for colliding hashes) -/
+theorem C09_key_injective_needed :
+    Table.ownConsistent (fun _ => (⟨[], []⟩ : Args)) [((1, ⟨[], []⟩), ⟨1, ⟨[1, 31], []⟩, false⟩)] ∧
+    app ⟨fun _ => ⟨[], []⟩, [((1, ⟨[], []⟩), ⟨1, ⟨[1, 31], []⟩, false⟩)], [], id, false⟩ .asynq
+        (Cell.callable ⟨.dedup, .plain, .inst, .plain⟩) (callerArgs .plain .inst 0 ⟨[30], []⟩) =
+      .fut ⟨1, ⟨[1, 31], []⟩, false⟩ := by
+  refine ⟨?_, by decide⟩
+  intro e he _
+  simp only [List.mem_singleton] at he
+  subst he
+  exact ⟨rfl, rfl, rfl⟩
+
+/-- `ht` is needed: an entry under this call's key that no call of the function put there is handed out -/
+theorem C09_consistent_needed :
+    app ⟨id, [((1, ⟨[1, 30], []⟩), ⟨77, ⟨[99], []⟩, false⟩)], [], id, false⟩ .asynq
+        (Cell.callable ⟨.dedup, .plain, .inst, .plain⟩) (callerArgs .plain .inst 0 ⟨[30], []⟩) =
+      .fut ⟨77, ⟨[99], []⟩, false⟩ := by decide
+
+/-! ## holding by construction of the model (NOT headline claims; the content is the correspondence run) -/
+
+/-- `Case.falsy` (the generated instances / classes are falsy objects) and `Case.pre` (look-ups of the same attribute
+    through other access paths before the observed one) are read by NO function of the model or of `spec`: this is
+    `rfl`.  That a falsy receiver is bound like a truthy one, and that `__get__` keeps nothing between two accesses,
+    is what the harness checks on the real code by running these variants; the model only says that it has no such
+    dependency (see `C09_any_receiver` for what it does say about receivers). -/
+theorem C09_truthiness_history_by_construction (c : Case) (falsy : Bool) (pre : List Access) (r : Report) :
+    modelReport { c with falsy := falsy, pre := pre } = modelReport c ∧
+    refReport { c with falsy := falsy, pre := pre } = refReport c ∧
+    spec { c with falsy := falsy, pre := pre } r = spec c r :=
+  ⟨rfl, rfl, rfl⟩
+
+/-- the pairs of conventions that are ONE computation in the model, by definition of `runCv` (C01/C02 assumed) -/
+theorem C09_convention_pairs_by_definition (env : Env) (b : Obj) (a : Args) (tb : Obj) (ta : Args) (sb : Obj) (sa : Args) :
+    runCv env .sync b a tb ta sb sa = runCv env .nestedSync b a tb ta sb sa ∧
+    runCv env .asynqValue b a tb ta sb sa = runCv env .yieldAsynq b a tb ta sb sa ∧
+    runCv env .asyncCall b a tb ta sb sa = runCv env .asyncCallSync b a tb ta sb sa :=
+  ⟨rfl, rfl, rfl⟩
 
 /-! ## non-vacuity -/
 
@@ -351,5 +527,65 @@ example :
 example :
     ((modelReport ⟨⟨.dedup, .plain, .direct, .plain⟩, false, .var, ⟨[], []⟩, false, [], .recv, .tok⟩).obs.filter
         (fun o => o.cv.isSib)).map (·.out) = List.replicate 3 (.raised .skipped) := by decide
+
+
+/-- B5 of the audit: reports for cells OUTSIDE the supported bindings used to be accepted whatever they said; they are
+    rejected now (and so is the model's own report there: such cells are never generated) -/
+example : spec ⟨⟨.acpi, .plain, .direct, .plain⟩, false, .fixed, ⟨[30], []⟩, false, [], .args, .tok⟩
+    ⟨[], ⟨false, true, false, .absent, .absent⟩, 999⟩ = false := by decide
+example : spec ⟨⟨.alru, .classm, .inst, .plain⟩, false, .fixed, ⟨[30], []⟩, false, [], .args, .tok⟩
+    ⟨[], ⟨false, true, false, .absent, .absent⟩, 999⟩ = false := by decide
+example : spec ⟨⟨.asynq, .static, .direct, .plain⟩, false, .fixed, ⟨[30], []⟩, false, [], .args, .tok⟩
+    ⟨[], ⟨false, true, false, .absent, .absent⟩, 999⟩ = false := by decide
+example : spec ⟨⟨.alru, .static, .inst, .plain⟩, false, .fixed, ⟨[30], []⟩, false, [], .args, .tok⟩
+    (modelReport ⟨⟨.alru, .static, .inst, .plain⟩, false, .fixed, ⟨[30], []⟩, false, [], .args, .tok⟩) = false := by decide
+example : specClause ⟨⟨.asynq, .static, .direct, .plain⟩, false, .fixed, ⟨[30], []⟩, false, [], .args, .tok⟩
+    ⟨[], ⟨false, true, false, .absent, .absent⟩, 999⟩ = "unsupported-cell" := by decide
+
+/-- on a supported cell: reordered, truncated, receiver-changed, resume-flag-changed observations are rejected -/
+example : spec ⟨⟨.asynq, .plain, .inst, .plain⟩, false, .fixed, ⟨[30], []⟩, false, [], .args, .tok⟩
+    { modelReport ⟨⟨.asynq, .plain, .inst, .plain⟩, false, .fixed, ⟨[30], []⟩, false, [], .args, .tok⟩ with
+      obs := (modelReport ⟨⟨.asynq, .plain, .inst, .plain⟩, false, .fixed, ⟨[30], []⟩, false, [], .args, .tok⟩).obs.reverse } = false := by
+  decide
+example : spec ⟨⟨.asynq, .plain, .inst, .plain⟩, false, .fixed, ⟨[30], []⟩, false, [], .args, .tok⟩
+    { modelReport ⟨⟨.asynq, .plain, .inst, .plain⟩, false, .fixed, ⟨[30], []⟩, false, [], .args, .tok⟩ with
+      obs := (modelReport ⟨⟨.asynq, .plain, .inst, .plain⟩, false, .fixed, ⟨[30], []⟩, false, [], .args, .tok⟩).obs.dropLast } = false := by
+  decide
+example : spec ⟨⟨.asynq, .plain, .inst, .plain⟩, false, .fixed, ⟨[30], []⟩, false, [], .args, .tok⟩
+    { modelReport ⟨⟨.asynq, .plain, .inst, .plain⟩, false, .fixed, ⟨[30], []⟩, false, [], .args, .tok⟩ with got := 2 } = false := by
+  decide
+
+example : spec ⟨⟨.asynq, .plain, .inst, .gen⟩, false, .fixed, ⟨[30], []⟩, false, [], .args, .tok⟩
+    { modelReport ⟨⟨.asynq, .plain, .inst, .gen⟩, false, .fixed, ⟨[30], []⟩, false, [], .args, .tok⟩ with
+      obs := (modelReport ⟨⟨.asynq, .plain, .inst, .gen⟩, false, .fixed, ⟨[30], []⟩, false, [], .args, .tok⟩).obs.map fun o =>
+        { o with log := o.log.map fun e => { e with got := false } } } = false := by
+  decide
+
+/-- an undecorated generator function: every convention that reaches it ends with the generator object, no body is
+    entered (the cells the generator used to skip) ... -/
+example :
+    (modelReport ⟨⟨.raw, .plain, .inst, .gen⟩, false, .fixed, ⟨[30], []⟩, false, [], .args, .tok⟩).obs.map (fun o => (o.cv, o.log.length, o.out)) =
+      [(.sync, 0, .gotGenerator), (.asynqValue, 0, .raised .noAsynq), (.yieldAsynq, 0, .raised .noAsynq),
+       (.nestedSync, 0, .gotGenerator), (.asyncCall, 0, .gotGenerator), (.asyncCallSync, 0, .gotGenerator),
+       (.getAsyncFn, 0, .raised .noAsynq), (.getAsyncOrSync, 0, .gotGenerator), (.getAsyncFnWrap, 0, .gotGenerator),
+       (.twin, 0, .raised .noAsynq), (.sibling, 0, .raised .noAsynq), (.siblingCall, 0, .gotGenerator),
+       (.prior, 0, .raised .noAsynq)] := by decide
+
+/-- ... and the observations the model USED to predict there (the body runs and returns) are rejected -/
+example :
+    spec ⟨⟨.raw, .plain, .inst, .gen⟩, false, .fixed, ⟨[30], []⟩, false, [], .args, .tok⟩
+      (modelReport ⟨⟨.raw, .plain, .inst, .plain⟩, false, .fixed, ⟨[30], []⟩, false, [], .args, .tok⟩) = false := by decide
+
+/-- `C09_any_receiver` instantiated: receiver token 0 (the token the harness reserves for None) or a huge one are bound
+    like any other -/
+example : app (Env.idle id) .asynq (descrGet (build .pair .plain .gen false) (some 0) 12345) ⟨[30], []⟩ =
+    .fut ⟨1, ⟨[0, 30], []⟩, false⟩ := by decide
+example : app (Env.idle id) .asynq (descrGet (build .mad .classm .batch false) none 12345) ⟨[30], []⟩ =
+    .fut ⟨1, ⟨[12345, 30], []⟩, true⟩ := by decide
+
+/-- `C09_own_entries` instantiated non-vacuously: the observed call's own task is in flight under its key -/
+example : app ⟨id, [((1, ⟨[1, 30], []⟩), ⟨1, ⟨[1, 30], []⟩, false⟩), ((3, ⟨[1, 30], []⟩), ⟨3, ⟨[5, 30], []⟩, false⟩)], [], id, false⟩
+    .asynq (Cell.callable ⟨.dedup, .plain, .inst, .plain⟩) (callerArgs .plain .inst 0 ⟨[30], []⟩) =
+      .fut ⟨1, ⟨[1, 30], []⟩, false⟩ := by decide
 
 end AsynqModel.Decorators
